@@ -1350,6 +1350,11 @@ def _make_dual_use_func(func_ip, func_oop, domain, out_dtype):
                 # Cast to proper dtype if needed, also convert to array if out
                 # is a scalar.
                 out = np.asarray(out, dtype=scalar_out_dtype)
+                if any(np.may_share_memory(out, xi) for xi in x):
+                    # The function returned (a view of) its input, e.g.
+                    # ``lambda x: x[0]``; the result must not alias the
+                    # evaluation points (usually the grid of a space)
+                    out = out.copy()
                 if scalar_in:
                     out = np.squeeze(out)
                 elif ndim == 1 and out.shape == (1,) + out_shape:
